@@ -7,7 +7,7 @@
    satisfying the contract. *)
 From GL Require Import Base.Order Base.Varint Base.VarintProofs Base.Cursor Base.CursorProofs
   Codec.BytesCmp Codec.BytesCmpProofs Codec.Block Codec.BlockEnc Codec.BlockProofs Codec.BlockSliceProofs
-  Codec.Table Codec.TableProofs Codec.TableIterProofs Codec.TableDamageProofs
+  Codec.Table Codec.TableProofs Codec.TableIterProofs Codec.IndexedIterProofs Codec.TableSliceProofs Codec.TableDamageProofs
   Codec.TableCheck Codec.TableCheckProofs Codec.TableWriteProofs Codec.TblCrc Gen.ConstsOkTbl.
 
 (* A.0  uvarint: Uvarint (PutUvarint x ++ rest) = (x, len) for every uint64 x. *)
@@ -92,18 +92,29 @@ Proof.
 Qed.
 Print Assumptions C13_index_routes.
 
-(* B.4  table_iter_refines_cursor — PARTIAL: proved for the unsliced iterator NewIterator(nil, ro)
-   (both settings of the strict flag): every sequence of First/Last/Seek/Next/Prev on the indexed
-   iterator observes what the reference cursor over all pairs observes.
-   FULL STATEMENT (not proved; exercised by (K) and (P) only): for every slice (start, limit),
-   new_titer c rd (Some (start, limit)) strict = inr t and
-   fst (ti_run c rd t ops) = c_run c (restrict c start limit (tkvs blocks)) CSOI ops. *)
-Theorem C13_table_iter_refines_cursor_partial : forall c rd blocks seps hs strict,
+(* B.4  table_iter_refines_cursor: every sequence of First/Last/Seek/Next/Prev on the table
+   iterator (indexedIterator over indexIter and the data-block iterators; both settings of the
+   strict flag) observes what the reference cursor observes.
+   (a) NewIterator(nil, ro): the cursor over all pairs — every well-formed table, the empty one included. *)
+Theorem C13_table_iter_refines_cursor : forall c rd blocks seps hs strict,
   comparer_ok c -> table_wf c rd blocks seps hs ->
   exists t, new_titer c rd None strict = inr t /\
     forall ops, fst (ti_run c rd t ops) = c_run c (tkvs blocks) CSOI ops.
 Proof. intros c rd blocks seps hs strict. exact (table_iter_refines c rd blocks seps hs strict). Qed.
-Print Assumptions C13_table_iter_refines_cursor_partial.
+Print Assumptions C13_table_iter_refines_cursor.
+
+(* (b) NewIterator(&util.Range{start, limit}, ro), each bound optional: the cursor over the pairs
+   with start <= key < limit (the index iterator is sliced with inclLimit, the data iterators of
+   the first and last index position are sliced, indexIter.Get's isFirst/isLast rule).
+   PARTIAL only in this: the EMPTY table is excluded.  FULL STATEMENT: the same without the
+   hypothesis tkvs blocks <> [] (on an empty table a range makes the data iterator report a
+   spurious corruption error — see A.4 — while still returning no pair; exercised, not proved). *)
+Theorem C13_table_iter_range_refines_cursor_partial : forall c rd blocks seps hs start limit strict,
+  comparer_ok c -> table_wf c rd blocks seps hs -> tkvs blocks <> [] ->
+  exists t, new_titer c rd (Some (start, limit)) strict = inr t /\
+    forall ops, fst (ti_run c rd t ops) = c_run c (restrict c start limit (tkvs blocks)) CSOI ops.
+Proof. exact table_iter_sliced_refines. Qed.
+Print Assumptions C13_table_iter_range_refines_cursor_partial.
 
 (* B.5  offsetof_monotone: approximate offsets never decrease as the key grows. *)
 Theorem C13_offsetof_monotone : forall c rd blocks seps hs k1 k2,
